@@ -61,3 +61,7 @@ Lemma tie_GEN_POLY : SrcTables.GEN_POLY = IsoData.GEN_POLY. Proof. vm_compute. r
 Lemma tie_GALIOS_LOG : SrcTables.GALIOS_LOG = IsoData.GALIOS_LOG. Proof. vm_compute. reflexivity. Qed.
 Lemma tie_GALIOS_EXP : SrcTables.GALIOS_EXP = IsoData.GALIOS_EXP. Proof. vm_compute. reflexivity. Qed.
 Lemma tie_FINDER_PATTERN : SrcTables.FINDER_PATTERN = IsoData.FINDER_PATTERN. Proof. vm_compute. reflexivity. Qed.
+Lemma tie_NAME2RGB : SrcTables.NAME2RGB = IsoData.NAME2RGB. Proof. vm_compute. reflexivity. Qed.
+Lemma tie_ALPHA_COMMONS : SrcTables.ALPHA_COMMONS = IsoData.ALPHA_COMMONS. Proof. vm_compute. reflexivity. Qed.
+Lemma tie_VALID_SERIALIZERS : SrcTables.VALID_SERIALIZERS = IsoData.VALID_SERIALIZERS. Proof. vm_compute. reflexivity. Qed.
+Lemma tie_CREATOR : SrcTables.CREATOR = IsoData.CREATOR. Proof. vm_compute. reflexivity. Qed.
